@@ -463,7 +463,10 @@ def values_equal(ex, st, a, b):
         return z3.And(*[_z(p) for p in parts])
     if isinstance(a, Opaque) and isinstance(b, Opaque):
         if a.kind != b.kind:
-            return False
+            # values of unrelated abstract kinds: equality is unknown (an uninterpreted predicate)
+            ka, kb = sorted([a, b], key=lambda o: o.kind)
+            f = ex.uf(f"eq_{ka.kind}_{kb.kind}", z3sort(("u", ka.kind)), z3sort(("u", kb.kind)), z3.BoolSort())
+            return f(ka.t, kb.t)
         if a.t.eq(b.t):
             return True
         return a.t == b.t
@@ -896,7 +899,7 @@ def getattr_(ex, st, v, attr):
     if natural_sort(v) in ("int", "bool", "real"):
         yield ex.raise_(st, "AttributeError")
         return
-    raise U(f"attribute {attr} on {v!r}")
+    ex.give_up(st, f"attribute {attr} on {v!r}")
 
 
 def class_attr(ex, st, cref: ClassRef, attr, instance):
@@ -940,7 +943,8 @@ def class_attr(ex, st, cref: ClassRef, attr, instance):
 def opaque_attr(ex, st, v: Opaque, attr):
     spec = ex.db.opaque_attr(v.kind, attr)
     if spec is None:
-        raise _U()(f"attribute {attr} of opaque {v.kind} (declare it in the contract DB)")
+        ex.give_up(st, f"attribute {attr} of opaque {v.kind} (declare it in the contract DB)")
+        return
     kind, payload = spec
     if kind == "field":
         sort = parse_sort(payload)
@@ -1094,7 +1098,7 @@ def getitem(ex, st, ref, idx):
     if isinstance(v, (TypeRef, ClassRef)):
         yield st, v  # generic alias  list[int]
         return
-    raise U(f"subscript of {v!r}")
+    ex.give_up(st, f"subscript of {v!r}")
 
 
 def getslice(ex, st, ref, lo, hi, step):
@@ -1140,7 +1144,8 @@ def setitem(ex, st, ref, idx, v):
     _mutable_check(ex, st, o)
     if isinstance(o, PDict):
         if is_sym(idx):
-            raise U("symbolic key store into concrete dict")
+            ex.give_up(st, "symbolic key store into concrete dict")
+            return
         o.items[idx] = v
         yield st, None
     elif isinstance(o, SDict):
@@ -1160,7 +1165,7 @@ def setitem(ex, st, ref, idx, v):
     elif o is None or natural_sort(o) is not None or isinstance(o, tuple):
         yield ex.raise_(st, "TypeError")
     else:
-        raise U(f"item assignment on {o!r}")
+        ex.give_up(st, f"item assignment on {o!r}")
 
 
 def sdict_store(d: SDict, k, v):
